@@ -79,11 +79,12 @@ type Gateway struct {
 	PendFrame Frame
 	Retries   int
 
-	NextChan   int    // channel assigned by the next successful connect
-	ConnPolicy string // ok | busy | refuse | silent
-	HbPolicy   string // ok | err | silent | foreign
-	HbStatus   int    // status used with HbPolicy err
-	AckStatus  int    // status of tunnelling acks (0 normally)
+	NextChan     int    // channel assigned by the next successful connect
+	ConnPolicy   string // ok | busy | refuse | silent
+	HbPolicy     string // ok | err | silent | foreign
+	HbStatus     int    // status used with HbPolicy err
+	AckStatus    int    // status of tunnelling acks (0 normally)
+	RefuseStatus int    // status of a refusing connect response (0 = E_CONNECTION_TYPE)
 
 	Bus    []int // payload ids put on the bus, in order
 	Acked  []int // payload ids of own requests that were acknowledged, in order
@@ -127,7 +128,11 @@ func (g *Gateway) Recv(f Frame) []Frame {
 		case "busy":
 			g.send(&out, &knxnet.ConnRes{Channel: 0, Status: knxnet.ErrNoMoreConnections})
 		case "refuse":
-			g.send(&out, &knxnet.ConnRes{Channel: 0, Status: knxnet.ErrConnectionType})
+			var st knxnet.ErrCode = knxnet.ErrConnectionType
+			if g.RefuseStatus != 0 {
+				st = knxnet.ErrCode(g.RefuseStatus)
+			}
+			g.send(&out, &knxnet.ConnRes{Channel: 0, Status: st})
 		}
 	case *knxnet.ConnStateReq:
 		// fault policies apply whatever the connection state (as NetToGwFault of the specification)
